@@ -128,9 +128,27 @@ def unit_rac(eng, tier="quick"):
                     ref = res
                 elif res != ref:
                     bad.append((name, fmt, ws, "differs from the first configuration"))
+        # the image written to standard output ('-o -'): the emitted bytes must not depend on the report format or the -W selection
+        # (finding D47: the bare format prints its diagnostics to standard output too)
+        known47 = []
+        for name, src, image in (("stdout-ok", "mov #1, r0\n", "c0150100"), ("stdout-warn", ".byte\n.byte 2\n", "0002")):
+            for fmt, ws in itertools.product(("bare", "graphical"), wsel):
+                wd = os.path.join(d, "%s-%s-%d" % (name, fmt, wsel.index(ws)))
+                os.makedirs(wd)
+                open(os.path.join(wd, "p.mac"), "w").write(src)
+                p = subprocess.run(["/venv/bin/python", "-c", "import sys; sys.path.insert(0, %r); sys.argv = ['pdpy11'] + sys.argv[1:]; from pdpy11._cli import main_cli; main_cli()" % driver.tree_root(),
+                                    "p.mac", "--report-format", fmt, "-o", "-"] + ws, cwd=wd, capture_output=True, timeout=120)
+                n += 1
+                if p.returncode != 0 or p.stdout.hex() != image:
+                    rec = (name, fmt, ws, "standard output is not the image", p.returncode, p.stdout[:60])
+                    if fmt == "bare" and "D47" in common.ACTIVE_FINDINGS and p.returncode == 0 and bytes.fromhex(image) in p.stdout:
+                        known47.append(rec)
+                    else:
+                        bad.append(rec)
     finally:
         shutil.rmtree(d, ignore_errors=True)
-    ob = dict(label="real-CLI:status-and-files-per-fault-identical-under-both-report-formats-and-all--W-selections", kind="rac", status="proved" if n and not bad else "failed", secs=0.0, path=[],
+    ob = dict(label="real-CLI:status-and-files-per-fault-identical-under-both-report-formats-and-all--W-selections", kind="rac",
+              status=("known-region" if known47 else "proved") if n and not bad else "failed", secs=0.0, path=[],
               witness=None, detail=str(bad[:4]), events=[], smt2=None, backend="cpython-native", unit="cli-rac", func="_cli.main_cli (run-time check)", cases=n, cfg=dict(kind="rac"))
     return dict(unit="cli-rac", func="_cli.main_cli (run-time check)", paths=n, obligations=[ob], wall=0.0)
 
@@ -285,6 +303,23 @@ def replay(o, tree):
     return dict(jobs=None, experiment="real CLI on 10 planted faults x 2 report formats x 4 -W selections", observed=rr["detail"][:600], reproduced=rr["status"] == "failed")
 
 
+def witness_D47(tree):
+    import subprocess
+    import tempfile
+    import shutil
+    d = tempfile.mkdtemp(prefix="pyvc-d47-")
+    try:
+        open(os.path.join(d, "p.mac"), "w").write(".byte\n.byte 2\n")
+        outs = []
+        for ws in ([], ["-Wno-all"]):
+            p = subprocess.run(["/venv/bin/python", "-c", "import sys; sys.path.insert(0, %r); sys.argv = ['pdpy11'] + sys.argv[1:]; from pdpy11._cli import main_cli; main_cli()" % tree,
+                                "p.mac", "--report-format", "bare", "-o", "-"] + ws, cwd=d, capture_output=True, timeout=120)
+            outs.append(p.stdout)
+        return outs[0] != outs[1], "standard output with the default warnings: %d bytes, with -Wno-all: %d bytes (the image has 2)" % (len(outs[0]), len(outs[1]))
+    finally:
+        shutil.rmtree(d, ignore_errors=True)
+
+
 def witness_D12(tree):
     r = _d12(tree)
     return r["reproduced"], "exit status and files: %s" % (r["observed"],)
@@ -295,4 +330,4 @@ def witness_D8(tree):
     return c13.witness_D8(tree)
 
 
-FINDING_WITNESS = {"D12": witness_D12, "D8": witness_D8}
+FINDING_WITNESS = {"D12": witness_D12, "D8": witness_D8, "D47": witness_D47}
